@@ -13,7 +13,7 @@ from vf.xmodel import Schema, Rop, build_api, build_loader
 
 SHARDS = {'quick': 16, 'thorough': 32}
 TIMEOUT = {'quick': 900, 'thorough': 5400}
-MUST_HIT = ['SortOracle.chains', 'SortOracle.ring', 'StepBudget.guarded-calls', 'SortOracle.subset-termination']
+MUST_HIT = ['SortOracle.mixed-subset-termination', 'SortOracle.chains', 'SortOracle.ring', 'StepBudget.guarded-calls', 'SortOracle.subset-termination']
 MUST_REACH = ['xtuml/meta.py:sort_reflexive', 'xtuml/meta.py:sort_reflexive.<locals>.sequence_generator']
 ANCHORS = MUST_REACH
 MIN_NONTRIVIAL = {'quick': 500, 'thorough': 500}
@@ -22,7 +22,7 @@ RULE = ('exhaustive: every arrangement of n <= N instances (N=5 quick, 7 thoroug
         'every creation order relative to succession occurs), sorted across both phrases, with the '
         'set handed over in creation order and in a rotated order; every ring over n <= N instances '
         'in every cyclic order and every rotation of the set; random sets of up to 300 instances; '
-        'arbitrary subsets of chains/rings for termination only. Non-trivial = at least one chain of '
+        'arbitrary subsets of chains/rings for termination only, and - exhaustively for n <= 4 (quick) / 5 (thorough) - every population mixing chains and rings with every subset in two orders (termination and membership only). Non-trivial = at least one chain of '
         'two or more members; enumerated arrangements are distinct by construction.')
 ASSUMPTIONS = ['the order among different chains in the result is not specified and not compared']
 LEVEL_TEXT = ('Bounded-exhaustive over all chain arrangements and rings of up to 7 (quick) / 8 (thorough) '
@@ -169,10 +169,53 @@ def check_subset(ctx, budget, rng, n, chains, ring, route):
             raise Mismatch('empty', 'empty set does not sort to an empty result')
 
 
+def mixed_subsets(ctx, budget, n, chains, ring_flags, route):
+    '''
+    Termination only: a population of chains and rings (every chain may be
+    closed to a ring), sorted for every subset of its instances and both
+    phrases; the result must stay inside the given set.
+    '''
+    import xtuml
+    m = build_api(schema()) if route == 'api' else build_loader(schema())
+    insts = [m.new('P', N=i) for i in range(n)]
+    for chain, ring in zip(chains, ring_flags):
+        for a, b in zip(chain, chain[1:]):
+            xtuml.relate(insts[a], insts[b], 1, 'precedes')
+        if ring:
+            xtuml.relate(insts[chain[-1]], insts[chain[0]], 1, 'precedes')
+    count = 0
+    for mask in range(1, 2 ** n):
+        sub = [insts[i] for i in range(n) if mask >> i & 1]
+        for order in (sub, sub[::-1]):
+            for phrase in ('succeeds', 'precedes'):
+                ctx.hit('SortOracle.mixed-subset-termination')
+                got = call_sort(budget, xtuml.QuerySet(order), n, phrase)
+                if len(set(map(id, got))) != len(got) or not set(map(id, got)) <= set(map(id, sub)):
+                    raise Mismatch('subset/members', 'result holds members outside the given set or twice')
+                count += 1
+    return count
+
+
 def run(ctx):
     rng = ctx.rng
     budget = StepBudget()
     budget.install()
+    # populations mixing rings and chains, every subset (termination)
+    M = 4 if ctx.tier == 'quick' else 5
+    mixed = []
+    for n in range(1, M + 1):
+        for chains in arrangements(n):
+            for flags in itertools.product((False, True), repeat=len(chains)):
+                if any(flags):
+                    mixed.append((n, chains, flags))
+    done = 0
+    for j, (n, chains, flags) in enumerate(ctx.chunk(mixed)):
+        try:
+            done += mixed_subsets(ctx, budget, n, chains, flags, 'loader' if j % 29 == 0 else 'api')
+            ctx.case_enum(len(chains) > 1)
+        except Mismatch as e:
+            ctx.violation(e.key, e.what, case=dict(kind='mixed', n=n, chains=chains, rings=flags))
+    ctx.set_exhaustive('ring/chain populations x all subsets (termination)', 'n <= %d' % M, done)
     N = 7 if ctx.tier == 'quick' else 8
     jobs = []
     for n in range(1, N + 1):
